@@ -157,7 +157,11 @@ func init() {
 				}
 			}
 			ev["rt_ctx"] = rev
-			return fs, ev, inc
+			// ... and the trigger of the round a sync starts, fired while the worker is still handling that sync
+			cfs, cev, cinc := rtPart(run, "commitsync", 32, 1200, map[string]int{"C05 triggers fired during the handling of a sync judged": 8})
+			fs = append(fs, cfs...)
+			ev["rt_commitsync"] = cev
+			return fs, ev, append(inc, cinc...)
 		}})
 	reg(&sim.SimCheck{Prop: "C12", Workload: "c12", Profile: func(th bool) *sim.Profile {
 		p := advProfile(merge(noBare, map[string]int{"garbage": 30, "hugeView": 20, "mutate": 50, "vcGames": 10, "crossInstance": 6, "support": 10, "badBlock": 6, "corruptNested": 25, "wrapLen": 12}), 350, 2)(th)
